@@ -128,7 +128,7 @@ end
 func init() {
 	register(&Prop{
 		ID:   "C17",
-		Rule: "request histories on pools of size (1,2),(1,3),(2,3),(2,4),(3,6): start request (healthy / rule error / panicking injected function / type fault outside the self-recovering constructs / missing name / store into a nil map / wrong key kind / out-of-range element store and read / an integer literal key on a uint8-keyed map (kind 13) / a healthy request whose data map also holds a nil value and an empty key (kind 12) / a request with a nil data map (kind 11, fails on the missing names without parking) / a failing child of the conc block in which every request parks (kind 10) / a healthy request that injects its own function, map and slice under names and Go types of values the pool was constructed with; every request also binds a local, writes its own map and slice, reads the slice through a variable index and passes an expression over its own map and slice elements to a comparing function) through any of the 24 pool execute methods, release the k-th outstanding request; up to max+4 outstanding, every request parks inside its rule on a Hold gate keyed by its id; oracle after every step: the number of requests parked inside rules equals min(max, outstanding) within the bound (waiters proceed, nothing lost) and never exceeds max, every finished request returned its own id (two in-flight requests on one instance would overwrite each other's injected object), a request never fails because the pool is busy, and after the history max requests park simultaneously again. 8% of the cases (2% in the thorough tier) are hand-over storms instead: max-1 requests stay inside their rule, the last instance is passed along a chain of 100-800 (thorough 1500) requests, each issued a generated number of spin iterations after its predecessor is let go (at most four storms at a time across the shard processes); every next request must enter its rule within the hang bound after the previous one returned and must return its own id. 3% of the cases are hammers: 4-32 clients issue 100-600 (thorough 1500) short ungated requests each, at most max may be inside a rule at any time, every request returns its own id, and afterwards max requests must be inside their rule together, three times in a row; pool sizes include (40,41), (33,34), (2,65), (31,33). Non-trivial: at some point more than max requests are outstanding and a failing or panicking request finished before the final probe, or a storm of >= 300 hand-overs; distinct by case hash",
+		Rule: "request histories on pools of size (1,2),(1,3),(2,3),(2,4),(3,6): start request (healthy / rule error / panicking injected function / type fault outside the self-recovering constructs / missing name / store into a nil map / wrong key kind / out-of-range element store and read / an integer literal key on a uint8-keyed map (kind 13) / a healthy request whose data map also holds a nil value and an empty key (kind 12) / a request with a nil data map (kind 11, fails on the missing names without parking) / a failing child of the conc block in which every request parks (kind 10) / a healthy request that injects its own function, map and slice under names and Go types of values the pool was constructed with; every request also binds a local, writes its own map and slice, reads the slice through a variable index and passes an expression over its own map and slice elements to a comparing function) through any of the 24 pool execute methods, release the k-th outstanding request; up to max+4 outstanding, every request parks inside its rule on a Hold gate keyed by its id; oracle after every step: the number of requests parked inside rules equals min(max, outstanding) within the bound (waiters proceed, nothing lost) and never exceeds max, every finished request returned its own id (two in-flight requests on one instance would overwrite each other's injected object), a request never fails because the pool is busy, and after the history max requests park simultaneously again. 8% of the cases (1% in the thorough tier) are hand-over storms instead: max-1 requests stay inside their rule, the last instance is passed along a chain of 100-800 (thorough 1500) requests, each issued a generated number of spin iterations after its predecessor is let go (at most four storms at a time across the shard processes); every next request must enter its rule within the hang bound after the previous one returned and must return its own id. 3% of the cases (1% in the thorough tier) are hammers: 4-32 clients issue 100-600 (thorough 1500) short ungated requests each, at most max may be inside a rule at any time, every request returns its own id, and afterwards max requests must be inside their rule together, three times in a row; pool sizes include (40,41), (33,34), (2,65), (31,33). Non-trivial: at some point more than max requests are outstanding and a failing or panicking request finished before the final probe, or a storm of >= 300 hand-overs; distinct by case hash",
 		New:  func() interface{} { return &C17Case{} },
 		Gen: func(t *rapid.T) interface{} {
 			c := &C17Case{}
@@ -136,7 +136,11 @@ func init() {
 			s := sizes[uni(t, "pool_size", 0, len(sizes)-1)]
 			c.PoolMin, c.PoolMax = s[0], s[1]
 			c.EM = uni(t, "em", 1, 4)
-			if pct(t, "hammer", 3) {
+			hammerPct := 3
+			if thorough() {
+				hammerPct = 1 // like the storms, hammers run four at a time and cost seconds each
+			}
+			if pct(t, "hammer", hammerPct) {
 				sizes := [][2]int64{{1, 4}, {1, 3}, {2, 4}, {1, 2}, {40, 41}, {33, 34}, {2, 65}, {31, 33}}
 				sz := sizes[uni(t, "hammer_size", 0, 7)]
 				c.PoolMin, c.PoolMax = sz[0], sz[1]
@@ -154,7 +158,7 @@ func init() {
 			stormPct := 8
 			if thorough() {
 				// a storm costs about a second of wall time under load and only four run at a time
-				stormPct = 2
+				stormPct = 1
 			}
 			if pct(t, "storm", stormPct) {
 				c.PoolMin, c.PoolMax = 1, int64(uni(t, "storm_max", 2, 3))
